@@ -726,7 +726,9 @@ impl HwMonitor {
             return None;
         }
         // vendor-dependent: operand-size prefix on near branches
-        if matches!(family(ins.mnemonic()), Family::Branch | Family::CallRet) && bytes[..ins.len()].iter().take_while(|b| is_prefix(**b)).any(|b| *b == 0x66) {
+        // (Intel ignores it in 64-bit mode, AMD truncates RIP to 16 bits; the reference decoder and the emulator follow
+        // Intel, so on an Intel host these trials are well-defined and run; on any other host they are skipped)
+        if matches!(family(ins.mnemonic()), Family::Branch | Family::CallRet) && bytes[..ins.len()].iter().take_while(|b| is_prefix(**b)).any(|b| *b == 0x66) && !host_is_intel() {
             col.count("skipped_vendor_dependent_66_branch", 1);
             return None;
         }
@@ -812,6 +814,11 @@ impl HwMonitor {
             }
         }
     }
+}
+
+pub fn host_is_intel() -> bool {
+    static V: std::sync::OnceLock<bool> = std::sync::OnceLock::new();
+    *V.get_or_init(|| std::fs::read_to_string("/proc/cpuinfo").map(|s| s.lines().any(|l| l.starts_with("vendor_id") && l.contains("GenuineIntel"))).unwrap_or(false))
 }
 
 fn persist_noop_hook(_: &mut Axecutor, _: ax_x86::auto::generated::SupportedMnemonic) -> Result<ax_x86::state::hooks::HookResult, Box<dyn std::error::Error>> {
